@@ -97,7 +97,9 @@ def generate(seed, tier):
         ops.append(a)
         nrej += 1 if a.get("reject") else 0
         x, t, _ = gen.gen_point(srng, names, [])
-        ops.append({"op": "eval", "names": ["ode", "grad"], "x": x, "t": t})
+        more = srng.sample(["jacobian", "diff_jacobian", "grad_jacobian", "eventRateVector", "transitionJacobian", "transitionMean",
+                            "transitionVar", "pureOdeVector"], srng.choice([0, 1, 2]))
+        ops.append({"op": "eval", "names": ["ode", "grad"] + more, "x": x, "t": t})
     if nrej:
         batch = "fault_injecting"
     elif batch == "fault_injecting" and "backend" in kenv:
